@@ -77,7 +77,7 @@ func InitialDir(kind string, cfg reftable.Config) (map[string][]byte, error) {
 		var ids []string
 		switch kind {
 		case "empty":
-		case "one":
+		case "one", "orphan-empty":
 			ids = []string{"i1"}
 		case "two":
 			ids = []string{"i1", "i2"}
@@ -114,6 +114,11 @@ func InitialDir(kind string, cfg reftable.Config) (map[string][]byte, error) {
 		return nil, err
 	}
 	m := w.Snapshot()
+	if kind == "orphan-empty" {
+		// what a process killed between the table rename and the list rename of the very first Add leaves:
+		// a complete table under its final name and no tables.list
+		delete(m, "tables.list")
+	}
 	initCache[key] = m
 	return m, nil
 }
